@@ -240,6 +240,9 @@ package server
 //@ ensures[unauthorised-answer] op != nil && !authorised(op.ElectionId, election) ==> result1 != nil || failedFor(result0, op.Id)
 //@ ensures[bad-op-type] op != nil && op.Op != spb.AFTOperation_ADD && op.Op != spb.AFTOperation_REPLACE && op.Op != spb.AFTOperation_DELETE
 //@   ==> ribState == old(ribState) && (result1 != nil || failedFor(result0, op.Id))
+// an authorised ADD/REPLACE of a supported kind for a known, named instance is answered in-band (programmed, failed or held), never with a stream error
+//@ ensures[add-answered-in-band] r != nil && op != nil && authorised(op.ElectionId, election) && (op.Op == spb.AFTOperation_ADD || op.Op == spb.AFTOperation_REPLACE)
+//@   && ni != "" && ni in old(dom(r.niRIB)) && opSupported(op) ==> result1 == nil
 //@ ensures[rib-before-fib] result0 != nil ==> fibOnlyAfterRib(result0.Result)
 //@ ensures[fib-follows-rib] result0 != nil ==> ribThenFib(result0.Result, fibACK)
 //@ ensures[statuses] result0 != nil ==> statusesKnown(result0.Result)
@@ -251,7 +254,7 @@ package server
 //@ loop 2 at "range faileds" invariant fibOnlyAfterRib(results) && ribThenFib(results, fibACK) && statusesKnown(results)
 //@ loop 2 invariant resultsOK(faileds) && op != nil
 //@ assigns ribState, spawned, hookCount, heldFor
-//@ props C04 C06 C01 C12:safety C12:ensures#nil-op C12:ensures#bad-op-type C12:ensures#unauthorised-no-rib C12:ensures#unauthorised-answer C12:ensures#one-of
+//@ props C04 C06 C01 C12:safety C12:ensures#nil-op C12:ensures#bad-op-type C12:ensures#unauthorised-no-rib C12:ensures#unauthorised-answer C12:ensures#one-of C12:ensures#add-answered-in-band
 
 //@ pred resultsOK(rs []*rib.OpResult) = forall i in 0..len(rs) :: rs[i] != nil
 
@@ -271,8 +274,12 @@ package server
 //@   len(sent(resCh)) + len(sent(errCh)) == old(len(sent(resCh))) + old(len(sent(errCh))) + len(ops)
 //@ ensures[rib-ready] ribReady(s.masterRIB)
 //@ ensures[monotone] len(sent(errCh)) >= old(len(sent(errCh))) && len(sent(resCh)) >= old(len(sent(resCh)))
+//@ ensures[errors-are-errors] forall i in old(len(sent(errCh)))..len(sent(errCh)) :: sent(errCh)[i] != nil
+//@ ensures[earlier-verdicts-kept] forall i in 0..old(len(sent(errCh))) :: sent(errCh)[i] == old(sent(errCh))[i]
 //@ loop 1 at "range ops" invariant len(sent(resCh)) + len(sent(errCh)) == old(len(sent(resCh))) + old(len(sent(errCh))) + loopi
 //@ loop 1 invariant len(sent(errCh)) >= old(len(sent(errCh))) && len(sent(resCh)) >= old(len(sent(resCh)))
+//@ loop 1 invariant[lemma-errors-are-errors] forall i in old(len(sent(errCh)))..len(sent(errCh)) :: sent(errCh)[i] != nil
+//@ loop 1 invariant[lemma-earlier-verdicts-kept] forall i in 0..old(len(sent(errCh))) :: sent(errCh)[i] == old(sent(errCh))[i]
 //@ loop 1 invariant ribReady(s.masterRIB) && s.masterRIB != nil && supportedSession(cs) && elec != nil
 //@ assigns sent(resCh), sent(errCh), ribState, spawned, hookCount, heldFor
 //@ props C06 C04 C09 C12:safety C12:ensures#unknown-client C12:ensures#unsupported-mode C12:ensures#one-answer-per-op C12:ensures#rib-ready
@@ -329,25 +336,37 @@ package server
 // (updateParams is reached) only for the first message of the stream; no other session's state is
 // assigned whatever happens.
 //@ unit Server.Modify$1
-//@ requires csWF(s) && s.masterRIB != nil && ribReady(s.masterRIB) && nRecv == 0 && !lastMulti && tagof(ms) != 0
+//@ requires csWF(s) && s.masterRIB != nil && ribReady(s.masterRIB) && nRecv == 0 && !lastMulti && !modCleanEnd && tagof(ms) != 0
 //@ at "received message %s on Modify channel" ghost nRecv = nRecv + 1
 //@ at "received message %s on Modify channel" ghost lastMulti = multiField(in)
 //@ at "received message %s on Modify channel" ghost resAtRecv = len(sent(resultChan))
 //@ at "received message %s on Modify channel" ghost ribAtRecv = ribState
 //@ at "received message %s on Modify channel" ghost elecAtRecv = s.curElecID
 //@ at "received message %s on Modify channel" ghost masterAtRecv = s.curMaster
+// completeness of the dispatch: a message is refused as multi-field only if it is one, each handler gets the field it handles,
+// the stream ends cleanly only at end of input, a read error is reported as such, and every verdict but the clean end is an error
+//@ ghostvar modCleanEnd Bool
+//@ at "errCh <- nil" ghost modCleanEnd = true
+//@ assert at "errCh <- nil" [clean-end-only-at-eof] lastRecvEOF
+//@ assert at "error reading message from client" [read-error-not-eof] !lastRecvEOF
+//@ assert at "cannot specify >1 of parameters, election ID and operation" [refused-only-if-multi-field] multiField(in)
+//@ assert at "if res, err = s.checkParams(" [params-dispatched] in.Params != nil
+//@ assert at "res, err = s.runElection(" [election-dispatched] in.ElectionId != nil
+//@ assert at "s.doModify(cid, in.Operation" [operations-dispatched] len(in.Operation) != 0
+//@ assert at "unimplemented handling of message" [nothing-to-dispatch] in.Params == nil && in.ElectionId == nil && len(in.Operation) == 0
+//@ ensures[verdicts-are-errors] forall i in old(len(sent(errCh)))..len(sent(errCh)) :: sent(errCh)[i] == nil ==> modCleanEnd
 //@ assert at "if res, err = s.checkParams(" [params-single-field] !multiField(in)
 //@ assert at "if err := s.updateParams(" [params-only-first] nRecv == 1 && !multiField(in)
 //@ assert at "res, err = s.runElection(" [election-single-field] !multiField(in)
 //@ assert at "s.doModify(cid, in.Operation" [operations-single-field] !multiField(in)
 //@ assert at "unimplemented handling of message" [empty-message] !multiField(in)
-//@ loop 1 invariant csWF(s) && s.masterRIB != nil && ribReady(s.masterRIB) && (gotmsg <==> nRecv > 0) && nRecv >= 0 && !lastMulti && len(sent(errCh)) >= old(len(sent(errCh)))
+//@ loop 1 invariant csWF(s) && s.masterRIB != nil && ribReady(s.masterRIB) && (gotmsg <==> nRecv > 0) && nRecv >= 0 && !lastMulti && len(sent(errCh)) >= old(len(sent(errCh))) && !modCleanEnd && (forall i in old(len(sent(errCh)))..len(sent(errCh)) :: sent(errCh)[i] != nil)
 //@ loop 1 invariant forall k in old(dom(s.cs)) :: k != cid ==> k in dom(s.cs) && s.cs[k] == old(s.cs[k])
 //@ ensures[multi-field-rejected] lastMulti ==> len(sent(errCh)) > 0 && errCode(sent(errCh)[len(sent(errCh)) - 1]) == codes.InvalidArgument
 //@ ensures[multi-field-no-effect] lastMulti ==> len(sent(resultChan)) == resAtRecv && ribState == ribAtRecv && s.curElecID == elecAtRecv && s.curMaster == masterAtRecv
 //@ ensures[ends-with-verdict] len(sent(errCh)) > old(len(sent(errCh)))
 //@ ensures[other-sessions-untouched] forall k in old(dom(s.cs)) :: k != cid ==> k in dom(s.cs) && s.cs[k] == old(s.cs[k])
-//@ assigns sent(errCh), sent(resultChan), ribState, hookCount, spawned, s.curElecID, s.curMaster, s.cs[cid].params, s.cs[cid].setParams, s.cs[cid].lastElecID, nRecv, lastMulti, resAtRecv, ribAtRecv, elecAtRecv, masterAtRecv, heldFor
+//@ assigns sent(errCh), sent(resultChan), ribState, hookCount, spawned, s.curElecID, s.curMaster, s.cs[cid].params, s.cs[cid].setParams, s.cs[cid].lastElecID, nRecv, lastMulti, modCleanEnd, lastRecvEOF, resAtRecv, ribAtRecv, elecAtRecv, masterAtRecv, heldFor
 //@ props C09 C12:safety C11:lock C12:ensures#multi-field-rejected C12:ensures#multi-field-no-effect C12:ensures#other-sessions-untouched
 
 // Server.Get: the consumer side of Get. One producer (doGet) is started; every response taken from
@@ -474,6 +493,9 @@ package server
 //@ ensures[default-instance] result1 == nil ==> result0.masterRIB.defaultName == DefaultNetworkInstanceName && DefaultNetworkInstanceName in dom(result0.masterRIB.niRIB)
 //@ ensures[vrfs-created] result1 == nil ==> forall i in 0..len(opt) :: istype(opt[i], *withVRFs) && (forall j in 0..i :: !istype(opt[j], *withVRFs))
 //@   ==> (forall k in 0..len(opt[i].(*withVRFs).names) :: opt[i].(*withVRFs).names[k] in dom(result0.masterRIB.niRIB))
+//@ pred vrfNamesUsable(names []string) = (forall a in 0..len(names), b in 0..len(names) :: a != b ==> names[a] != names[b]) && (forall a in 0..len(names) :: names[a] != DefaultNetworkInstanceName)
+//@ ensures[succeeds] (forall i in 0..len(opt) :: istype(opt[i], *withVRFs) && (forall j in 0..i :: !istype(opt[j], *withVRFs)) ==> vrfNamesUsable(opt[i].(*withVRFs).names)) ==> result1 == nil
+//@ loop 1 invariant[lemma-instances-so-far] forall k in dom(s.masterRIB.niRIB) :: k == DefaultNetworkInstanceName || (exists a in 0..loopi :: vrfs[a] == k)
 //@ ensures[only-requested-instances] result1 == nil && (forall i in 0..len(opt) :: !istype(opt[i], *withVRFs)) ==> dom(result0.masterRIB.niRIB) == add(emptyset(string), DefaultNetworkInstanceName)
 //@ ensures[post-change-hook] result1 == nil ==> forall i in 0..len(opt) :: istype(opt[i], *postChangeRibHook) && (forall j in 0..i :: !istype(opt[j], *postChangeRibHook))
 //@   ==> result0.masterRIB.postChangeHook == opt[i].(*postChangeRibHook).fn
